@@ -168,6 +168,7 @@ def H_buffer(ctx, cfg):
                 arr.writeable = False
             before = list(base.a.ravel())
             ctx.input("variant", [variant, preserve])
+            ctx.input("values", [v.__zexpr__() for v in vals])
             try:
                 res = f(arr, preserve_input=preserve)
             except Exception as exc:     # the conversion must work in both modes
@@ -228,7 +229,8 @@ def replay(cfg, cex):
         bad = (builtins.int(got) != want) if real_np.dtype(o).kind in "ui" else (float(got) != want)
         return bad, f"{i}->{o}: value {x} converted to {got}, nearest representable is {want}"
     variant, preserve = inp["variant"]
-    base = real_np.arange(8, dtype=i).reshape(1, 1, 2, 4) if variant == "strided" else real_np.arange(4, dtype=i).reshape(1, 1, 2, 2)
+    vals = inp["values"]
+    base = real_np.array(vals, dtype=real_np.int64).astype(i).reshape((1, 1, 2, 4) if variant == "strided" else (1, 1, 2, 2))
     arr = base[:, :, :, ::2] if variant == "strided" else base
     if variant == "readonly":
         arr.flags.writeable = False
@@ -239,6 +241,10 @@ def replay(cfg, cex):
         return True, f"{i}->{o} {variant} preserve_input={preserve}: raised {type(e).__name__}: {e}"
     if (preserve or variant == "readonly") and not real_np.array_equal(base, keep):
         return True, "input modified"
-    if not real_np.array_equal(res.astype(float), arr.astype(float)):
-        return True, f"wrong values {res.ravel().tolist()}"
+    from fractions import Fraction
+    want = [_nearest(Fraction(builtins.int(v)), o) for v in keep[:, :, :, ::2].ravel()] if variant == "strided" \
+        else [_nearest(Fraction(builtins.int(v)), o) for v in keep.ravel()]
+    got = [float(v) if real_np.dtype(o).kind == "f" else builtins.int(v) for v in res.ravel()]
+    if got != want:
+        return True, f"{i}->{o} {variant} preserve_input={preserve}: {keep.ravel().tolist()} converted to {got}, expected {want}"
     return False, "buffer clause holds"
